@@ -119,11 +119,21 @@ func runWorker(dir string, n int, j job) (report, string) {
 	}
 	cwd := filepath.Join(dir, "cwd")
 	_ = os.MkdirAll(cwd, 0o755)
-	cmd := exec.Command(selfBin())
-	cmd.Dir = cwd
-	cmd.Stdin = nil
-	cmd.Env = append(os.Environ(), "C19_WORKER="+jobFile)
-	outb, err := cmd.CombinedOutput()
+	var (
+		outb []byte
+		err  error
+	)
+	for try := 0; try < 3; try++ {
+		cmd := exec.Command(selfBin())
+		cmd.Dir = cwd
+		cmd.Stdin = nil
+		cmd.Env = append(os.Environ(), "C19_WORKER="+jobFile)
+		outb, err = cmd.CombinedOutput()
+		if _, exited := err.(*exec.ExitError); err == nil || exited {
+			break
+		}
+		// the process could not be started (the machine is busy): not a verdict about slip, try again
+	}
 	if err != nil {
 		return rep, fmt.Sprintf("worker %d died: %v: %s", n, err, lastLines(string(outb), 12))
 	}
